@@ -277,7 +277,7 @@ func (H) Execute(scAny any, cfg simrt.Config, st *core.Stats) (*simrt.Outcome, *
 		}
 	}
 	out := core.RunSequential(cfg, body)
-	out.OpsHash = h
+	out.Hash = simrt.Mix(out.Hash, h)
 	out.Nontrivial = len(sc.Ops) >= 3
 	if pv := core.OutcomeViolation(out); pv != nil {
 		return out, pv
